@@ -144,13 +144,16 @@ CLAIMS = {
              "parameter version is explained; parameters and history must equal, bitwise, an explicit simulate/loss/backward/step loop on the same draws (scripted) and under the same seed (real primaries, Adam, MLP).",
         note="Trusted: TLC, torch, the doubles (public extension points only). Backward is inferred (no observable event). Parametrised criteria are not trained by the constructed optimiser: modelled as the code behaves."),
     "C16": dict(
-        engine="Session.tla + SessionTrace.tla / TLC -> replay + trace validation",
-        technique="TLA+ session machine with buffer versions and a result memo; TLC interleavings replayed on real objects with content hashes and fresh-hedger comparison; recorded sessions validated by TLC (SessionTrace.tla)",
+        engine="Session.tla + SessionTrace.tla / TLC -> replay + trace validation + fresh-market oracle",
+        technique="TLA+ session machine with versions of buffers, parameters, clauses, listings, contract terms and cost rates and a result memo; TLC interleavings replayed on real objects with content hashes, compared with a fresh hedger and with a freshly built market; recorded sessions validated by TLC (SessionTrace.tla)",
         category=MC, design_ref="DESIGN.md 3 C16",
-        text="TLC checks Purity, Locality, FreshOnSimulate and HistoryIndependent over all interleavings of the public operations to bounded depth; the interleavings are executed on real "
-             "instruments with six hedger kinds, hashing every buffer after every operation and comparing every result with a fresh hedger holding the same parameters; seeded random "
-             "sessions recorded at public entry points are accepted by SessionTrace.tla only if every line (versions, result ids) is explained; an argument-purity sweep covers the public API.",
-        note="Trusted: TLC, SHA-1 content hashes, torch determinism for equal inputs. Depth 3 exhaustive (sampled for replay) + simulated depth 9; fit() under C15, dtype histories under C17."),
+        text="TLC checks Purity, Locality, FreshOnSimulate, ParamsChangeOnlyInFit and HistoryIndependent over all interleavings of the public operations (simulate, payoff, features, listed price, "
+             "compute_hedge/portfolio/pl, compute_loss, price, fit, add_clause, re-listing, re-striking, changing the cost rate) to bounded depth; the interleavings are executed on real "
+             "instruments with nine hedger kinds, hashing every buffer after every operation and comparing every read-only result bitwise with a fresh hedger holding the same parameters AND with "
+             "the same operation in a freshly built market of the current configuration carrying copies of the current series; seeded random sessions recorded at public entry points are "
+             "accepted by SessionTrace.tla only if every line (versions, result ids) is explained; re-configured objects against fresh ones; one feature object bound to several derivatives; "
+             "long-lived hedgers through dtype histories (Dtype.tla behaviours); an argument-purity sweep over the public API; purity of the repository's own tests through a recorder plugin.",
+        note="Trusted: TLC, SHA-1 content hashes, torch determinism for equal inputs. Depth 3 exhaustive (sampled for replay) + simulated depth 10. Black-Scholes / Whalley-Wilmott models copy the strike of the derivative they are built from: re-striking that derivative ends the judged part of an interleaving for those kinds."),
     "C17": dict(
         engine="Dtype.tla + DtypeTrace.tla / TLC -> replay + trace validation",
         technique="TLA+ dtype state machine explored exhaustively (full reachable graph); all bounded histories replayed on real instruments with the state compared after every operation; recorded traces validated by TLC (DtypeTrace.tla)",
